@@ -159,7 +159,8 @@ int getline(char **line_p, size_t *size_p, void *_f)
 {
 	FILE *f = _f;
 	char *p;
-	int len = 0;
+	size_t len = 0;
+	int c;
 
 	if (!*line_p || *size_p < 128) {
 		p = realloc(*line_p, 512);
@@ -168,18 +169,22 @@ int getline(char **line_p, size_t *size_p, void *_f)
 		*size_p = 512;
 	}
 
-	while (1) {
-		p = fgets(*line_p + len, *size_p - len, f);
-		if (!p)
-			return len ? len : -1;
-		len += strlen(p);
-		if ((*line_p)[len - 1] == '\n')
-			return len;
-		p = realloc(*line_p, *size_p * 2);
-		if (!p)
-			return -1;
-		*line_p = p;
-		*size_p *= 2;
+	/* read byte by byte: the line may contain NUL bytes */
+	while ((c = getc(f)) != EOF) {
+		if (len + 2 > *size_p) {
+			p = realloc(*line_p, *size_p * 2);
+			if (!p)
+				return -1;
+			*line_p = p;
+			*size_p *= 2;
+		}
+		(*line_p)[len++] = c;
+		if (c == '\n')
+			break;
 	}
+	if (len == 0)
+		return -1;
+	(*line_p)[len] = 0;
+	return len;
 }
 #endif
